@@ -1236,7 +1236,7 @@ pub fn stream_once(subject: &dyn Subject, case: &StreamCase, total_bytes: u64, c
     // announces exactly the number of clauses that follow)
     let mut prefix = case.prefix.clone();
     if let Some(at) = prefix.windows(8).position(|w| w == b"########") {
-        prefix.splice(at..at + 8, format!("{:08}", repeats).into_bytes());
+        prefix.splice(at..at + 8, format!("{}", repeats).into_bytes()); // no leading zeros: AIGER forbids them
     }
     let src = GenSource { prefix, period: case.period.clone(), repeats, suffix: case.suffix.clone(), grain, pos: 0 };
     let mut items = 0u64;
@@ -1315,7 +1315,9 @@ pub fn c10_streams(subjects: &[(Box<dyn Subject>, StreamCase)], tier: Tier, repo
                     acc.violation(format!("{}/streaming-memory/bound", case.label), format!("{} streaming {} bytes (chunk {chunk}, {grain} bytes per read, items <= {} bytes): peak live heap {peak} bytes exceeds the bound {bound} = 16*chunk + 32*max_item + 8 KiB", subject.name(), n, case.max_item), json!({"property": "C10", "subject": subject.name(), "case": case.label, "bytes": n, "chunk": chunk, "grain": grain}), n);
                 }
             }
-            if peaks[1] > peaks[0] + 64 {
+            // slack: the harness renders each item (and the header, whose text is a digit longer for
+            // the longer stream) into a String; anything kept per item shows as hundreds of kilobytes
+            if peaks[1] > peaks[0] + 1024 {
                 acc.violation(format!("{}/streaming-memory/grows-with-input", case.label), format!("{} (chunk {chunk}, {grain} bytes per read): peak heap {} bytes for {} input bytes but {} bytes for {}", subject.name(), peaks[0], total / 4, peaks[1], total), json!({"property": "C10", "subject": subject.name(), "case": case.label, "bytes": total, "chunk": chunk, "grain": grain}), total);
             }
         },
